@@ -105,6 +105,7 @@ fn perturbations<G: Group>(msg: &Msg<G>, parts: &ProofParts) -> Vec<(Fault, usiz
     for j in 0..msg.commitments.len() {
         v.push((Fault::ReplaceCommitment { j, with: PointRepl::Random }, 0, format!("commitment[{}]", j)));
         v.push((Fault::ReplaceCommitment { j, with: PointRepl::OtherHonest }, 0, format!("commitment[{}] + H", j)));
+        v.push((Fault::ReplaceCommitment { j, with: PointRepl::Sibling }, 0, format!("commitment[{}] := another commitment of the same statement", j)));
         v.push((Fault::Promise { j, with: PromiseRepl::PlusOne }, 0, format!("promise[{}] + 1", j)));
         v.push((Fault::Promise { j, with: PromiseRepl::MinusOne }, 0, format!("promise[{}] - 1", j)));
         v.push((Fault::Promise { j, with: PromiseRepl::Toggle }, 0, format!("promise[{}] toggled", j)));
@@ -113,6 +114,7 @@ fn perturbations<G: Group>(msg: &Msg<G>, parts: &ProofParts) -> Vec<(Fault, usiz
     for j in 0..msg.commitments.len() {
         for i in 0..j {
             v.push((Fault::SwapCommitments(i, j), 0, format!("order of commitments {} and {}", i, j)));
+            v.push((Fault::SwapPromises(i, j), 0, format!("promises of commitments {} and {} exchanged", i, j)));
         }
     }
     for bit in [0usize, 7, 255] {
@@ -260,7 +262,7 @@ fn run<G: Group>(sc: &Scenario, st: &mut RunStats) -> Vec<Violation> {
     // challenges — or the batch must be refused before any challenge is drawn
     if sc.cfg.m >= 2 {
         let ccfg = Config { bits: sc.cfg.bits, m: 1, cap: 1, ext: sc.cfg.ext };
-        let cwit = WitnessSpec { values: vec![0], promises: vec![None], blind_seed: sc.fault_seed ^ 0xC04, seed_nonce: None, zero_blind: vec![], same_as_prev: vec![] };
+        let cwit = WitnessSpec { values: vec![0], promises: vec![None], blind_seed: sc.fault_seed ^ 0xC04, seed_nonce: None, zero_blind: vec![], same_as_prev: vec![], special_blind: None };
         let cctx = Context { label: 7, extra: None };
         let cb = build::<G>(&ccfg, &cwit);
         if let Ok(Ok(cp)) = prove_mode::<G>(&cctx, &cb.statement, &cb.witness, &RngMode::Healthy(sc.rng_seed ^ 2)).0 {
@@ -316,7 +318,7 @@ fn run<G: Group>(sc: &Scenario, st: &mut RunStats) -> Vec<Violation> {
         let lcfg = Config { bits: 2, m: 1, cap: 1, ext: sc.cfg.ext };
         let mut msgs: Vec<Msg<G>> = Vec::with_capacity(k);
         for i in 0..k {
-            let w = WitnessSpec { values: vec![(i % 4) as u64], promises: vec![None], blind_seed: sc.fault_seed ^ (i as u64) << 8, seed_nonce: None, zero_blind: vec![], same_as_prev: vec![] };
+            let w = WitnessSpec { values: vec![(i % 4) as u64], promises: vec![None], blind_seed: sc.fault_seed ^ (i as u64) << 8, seed_nonce: None, zero_blind: vec![], same_as_prev: vec![], special_blind: None };
             let c = Context { label: i % LABELS.len(), extra: Some((i as u32).to_le_bytes().to_vec()) };
             let b = build::<G>(&lcfg, &w);
             match prove_mode::<G>(&c, &b.statement, &b.witness, &RngMode::Healthy(sc.rng_seed ^ i as u64)).0 {
